@@ -21,6 +21,9 @@ type PipelineArgs struct {
 	Batches     [][]map[string]interface{}   `json:"batches"`           // stream 0
 	Streams     [][][]map[string]interface{} `json:"streams,omitempty"` // optional: several upstream streams
 	EOFWithData bool                         `json:"eofWithData"`
+	// Parallel > 1: build the chains through the real SetupQueryParallelism with this many processors; chain i reads
+	// Streams[i]. If the query is not parallelised (one chain), nothing is run and {"chains":1} is returned.
+	Parallel int `json:"parallel,omitempty"`
 }
 
 type tableStreamer struct {
@@ -101,23 +104,46 @@ func pipelineOp(raw json.RawMessage) (interface{}, error) {
 	if err != nil {
 		return map[string]interface{}{"parseErr": err.Error()}, nil
 	}
-	dps := processor.AggsToDataProcessors(aggs, nil)
-	if len(dps) == 0 {
-		return map[string]interface{}{"parseErr": "no data processors"}, nil
+	var last *processor.DataProcessor
+	nChains := 1
+	if a.Parallel > 1 {
+		var err error
+		last, nChains, err = processor.VerifParallelChains(aggs, a.Parallel, func(n int) []processor.Streamer {
+			var out []processor.Streamer
+			for i := 0; i < n; i++ {
+				var b [][]map[string]interface{}
+				if i < len(a.Streams) {
+					b = a.Streams[i]
+				}
+				out = append(out, &tableStreamer{cols: a.Cols, batches: b, eofWith: a.EOFWithData, qid: qid})
+			}
+			return out
+		})
+		if err != nil {
+			return map[string]interface{}{"parseErr": "parallel setup: " + err.Error()}, nil
+		}
+		if last == nil || nChains <= 1 {
+			return map[string]interface{}{"chains": 1, "rows": []interface{}{}}, nil
+		}
+	} else {
+		dps := processor.AggsToDataProcessors(aggs, nil)
+		if len(dps) == 0 {
+			return map[string]interface{}{"parseErr": "no data processors"}, nil
+		}
+		streams := a.Streams
+		if len(streams) == 0 {
+			streams = [][][]map[string]interface{}{a.Batches}
+		}
+		var cs []*processor.CachedStream
+		for _, b := range streams {
+			cs = append(cs, processor.NewCachedStream(&tableStreamer{cols: a.Cols, batches: b, eofWith: a.EOFWithData, qid: qid}))
+		}
+		dps[0].SetStreams(cs)
+		for i := 1; i < len(dps); i++ {
+			dps[i].SetStreams([]*processor.CachedStream{processor.NewCachedStream(dps[i-1])})
+		}
+		last = dps[len(dps)-1]
 	}
-	streams := a.Streams
-	if len(streams) == 0 {
-		streams = [][][]map[string]interface{}{a.Batches}
-	}
-	var cs []*processor.CachedStream
-	for _, b := range streams {
-		cs = append(cs, processor.NewCachedStream(&tableStreamer{cols: a.Cols, batches: b, eofWith: a.EOFWithData, qid: qid}))
-	}
-	dps[0].SetStreams(cs)
-	for i := 1; i < len(dps); i++ {
-		dps[i].SetStreams([]*processor.CachedStream{processor.NewCachedStream(dps[i-1])})
-	}
-	last := dps[len(dps)-1]
 	var final *iqr.IQR
 	var ferr error
 	fetches := 0
@@ -141,14 +167,14 @@ func pipelineOp(raw json.RawMessage) (interface{}, error) {
 		}
 	}
 	if final == nil {
-		return map[string]interface{}{"rows": []interface{}{}}, nil
+		return map[string]interface{}{"rows": []interface{}{}, "chains": nChains}, nil
 	}
 	qt := query.GetQueryTypeOfFullChain(aggs)
 	resp, err := final.AsResult(qt, false, true)
 	if err != nil {
 		return map[string]interface{}{"runErr": "AsResult: " + err.Error()}, nil
 	}
-	out := map[string]interface{}{"rows": resp.Hits.Hits, "qtype": qt.String()}
+	out := map[string]interface{}{"rows": resp.Hits.Hits, "qtype": qt.String(), "chains": nChains}
 	var ms []map[string]interface{}
 	for _, b := range resp.MeasureResults {
 		if b != nil {
